@@ -68,6 +68,9 @@ type FcgiOut struct {
 	Content []byte
 	Pad     int
 	Raw     []byte
+	// CutAfter > 0: the responder's write to the socket ends CutAfter bytes into this record (a
+	// transport boundary, e.g. inside the 8-byte record header); the rest follows a moment later
+	CutAfter int
 }
 
 // FcgiEndRequest is the closing record (appStatus 0, FCGI_REQUEST_COMPLETE).
@@ -240,15 +243,26 @@ func (r *FcgiResponder) serve(nc net.Conn) {
 				outs = r.Respond(conv)
 			}
 			var wire []byte
+			var cuts []int
 			for _, o := range outs {
+				start := len(wire)
 				if o.Raw != nil {
 					wire = append(wire, o.Raw...)
 				} else {
 					wire = append(wire, EncodeFcgiRecord(o.Type, reqID, o.Content, o.Pad)...)
 				}
+				if o.CutAfter > 0 && start+o.CutAfter < len(wire) {
+					cuts = append(cuts, start+o.CutAfter)
+				}
 			}
 			nc.SetWriteDeadline(time.Now().Add(30 * time.Second))
-			nc.Write(wire)
+			prev := 0
+			for _, c := range cuts {
+				nc.Write(wire[prev:c])
+				prev = c
+				time.Sleep(400 * time.Microsecond) // long enough for the reader to come back for more
+			}
+			nc.Write(wire[prev:])
 			if r.CloseAfterAnswer {
 				return
 			}
